@@ -292,10 +292,12 @@ class Policy:
         on_end: AttemptHook | None,
     ) -> RetryOutcome[Any]:
         """Execute single attempt without retry."""
+        attempts = 0
         try:
             if on_start is not None:
                 on_start(make_attempt_context(1, ctx.operation, ctx.elapsed()))
 
+            attempts = 1
             result = func()
 
         except AbortRetryError as exc:
@@ -311,7 +313,7 @@ class Policy:
                         stop_reason=StopReason.ABORTED,
                     )
                 )
-            return build_aborted_outcome(ctx)
+            return build_aborted_outcome(ctx, attempts)
 
         except (KeyboardInterrupt, SystemExit):
             record_cancel(ctx)
